@@ -8,6 +8,7 @@ RULE = ('objects {CCtx, CCtx_params, DCtx} x every ZSTD_cParameter / ZSTD_dParam
 def run(vc, tier):
     c = vc.Check('C16', tier, 'model_checking', RULE)
     src = ['harness/c16_params.c', 'ref/edu_decoder.c']
+    c.run_vx_unit('c16-dicts', src, 'asan', ['--mode', 1, '--D', 0], share=0.3)
     r = c.run_vx_unit('c16-grid', src, 'asan', ['--depth', 3 if tier == 'quick' else 4, '--D', 0], share=0.9)
     c.states = r.done.get('outcomes', 0)
     c.transitions = r.done.get('executions', 0)
